@@ -76,6 +76,7 @@ func runViewPort(tw *trace.Writer, pw, ph int, ops []vpOp, maxc int) {
 		lx, ly := vp.GetContentSize()
 		cp := *vp // probes go through a copy: SetContent grows the limits of an unlocked viewport
 		tw.Emit(trace.Ev{"ev": ev, "op": o.Op, "before": []int{before[0], before[1]}, "g": geom(vp), "lim": []int{lx, ly},
+			"a": []int{o.N, o.X, o.Y, o.W, o.H}, "P": []int{rv.w, rv.h},
 			"probes": probes(&cp, rv, -2, maxc+2)})
 	}
 	locked := false
@@ -420,7 +421,7 @@ func viewsMain(args []string) error {
 			case 8:
 				h = append(h, vpOp{Op: "SetContentSize", W: rng.Intn(40), H: rng.Intn(30), Locked: rng.Intn(2) == 0})
 			default:
-				h = append(h, vpOp{Op: "Resize", X: rng.Intn(pw + 2), Y: rng.Intn(ph + 2), W: rng.Intn(pw+3) - 1, H: rng.Intn(ph+3) - 1})
+				h = append(h, vpOp{Op: "Resize", X: rng.Intn(pw + 2), Y: rng.Intn(ph + 2), W: rng.Intn(pw+6) - 4, H: rng.Intn(ph+6) - 4})
 			}
 		}
 		runViewPort(tw, pw, ph, h, 12)
